@@ -49,7 +49,9 @@ def _is_pow2(x):
 def index_expr(draw, n):
     """int index or contiguous slice within [0, n)"""
     if draw(st.booleans()):
-        return {"int": draw(st.integers(0, n - 1))}
+        i = draw(st.integers(0, n - 1))
+        # negative indices count from the end, as everywhere in Python
+        return {"int": i, "neg": draw(st.sampled_from([False, False, True]))}
     a = draw(st.integers(0, n))
     b = draw(st.integers(a, n))
     return {"slice": [a, b]}
@@ -164,10 +166,11 @@ def _same(x: dict, y: dict, rtol=0.0):
     return True
 
 
-def _sel(idx):
+def _sel(idx, n=None):
     if "int" in idx:
         i = idx["int"]
-        return i, slice(i, i + 1)
+        item = i - n if idx.get("neg") and n is not None else i
+        return item, slice(i, i + 1)
     a, b = idx["slice"]
     return slice(a, b), slice(a, b)
 
@@ -257,8 +260,8 @@ def run_case(case) -> list[Result]:
     a_case, b_case = case["a"], case["b"]
     nb = len(a_case["binning"]["edges"]) - 1
     npatch = len(a_case["samples"]) if kind == "CorrData" else a_case["npatch"]
-    bsel_item, bsel = _sel(case["bin_index"])
-    psel_item, psel = _sel(case["patch_index"])
+    bsel_item, bsel = _sel(case["bin_index"], nb)
+    psel_item, psel = _sel(case["patch_index"], npatch)
 
     def inner(idx, n):
         if "int" in idx:
